@@ -208,9 +208,37 @@ def add_params(g, it, p=0.35):
         t.f["params"] = ps
 
 
+def struct_children_split(g):
+    """Two counterparts with their own #[child_parents(T| ..)] lists; a member may carry a default #[child(p)] next to a #[child(B| q)] dedicated to B:
+    B then does not use the default one, and B's list need not know `p`."""
+    r = g.r
+    cps = r.sample(["A", "B", "m::C"], 2)
+    it = Item("struct", "S", shape="named")
+    it.attrs = g.trait_set(cps)
+    it.meta["cps"] = cps
+    pa, pb = f"p{g.mark()}", f"q{g.mark()}"
+    for i in range(r.randint(2, 5)):
+        f = Field(f"f{i}", r.choice(LEAF_TYPES))
+        roll = r.random()
+        if roll < 0.5:
+            ch = [Instr("child", "child", container=None, path=pa), Instr("child", "child", container=cps[1], path=pb)]
+            if g.chance(0.5):
+                ch.reverse()
+            f.attrs += ch
+        elif roll < 0.7:
+            f.attrs.append(Instr("child", "child", container=cps[0], path=pa))
+            f.attrs.append(Instr("child", "child", container=cps[1], path=pb))
+        it.fields.append(f)
+    it.attrs.append(Instr("child_parents", "child_parents", container=cps[0], entries=[dict(path=pa, ty=f"T{g.mark()}", hint=None)]))
+    it.attrs.append(Instr("child_parents", "child_parents", container=cps[1], entries=[dict(path=pb, ty=f"T{g.mark()}", hint=None)]))
+    return it
+
+
 def struct_children(g, n_cp=None):
     """Flat struct whose fields are #[child(path)] of nested counterparts (README 'Flatened children')."""
     r = g.r
+    if n_cp is None and g.chance(0.08):
+        return struct_children_split(g)
     n_cp = n_cp or r.choice([1, 1, 2])
     cps = r.sample(["A", "B", "m::C"], n_cp)
     shape = r.choice(["named", "named", "tuple"])
@@ -431,6 +459,13 @@ def enum_basic(g, n_cp=None):
                                  member=f"M{g.mark()}", action=None))
         elif roll < 0.3:
             hint = r.choice(["()", "{}", "Unit"]) if shape != "tuple" else r.choice(["Unit", "()", "{}"])
+            if shape == "tuple" and hint == "{}" and len(cps) >= 2 and g.chance(0.5):
+                # the struct form (and the field names it needs) dedicated to the first counterpart only: the others keep the tuple form
+                v.attrs.append(Instr("type_hint", "type_hint", container=cps[0], hint=hint))
+                for f in v.fields:
+                    f.attrs = [Instr("map", "map", container=cps[0], member=f"m{g.mark()}", action=None)]
+                it.variants.append(v)
+                continue
             v.attrs.append(Instr("type_hint", "type_hint", container=None, hint=hint))
             if shape == "tuple" and hint == "{}":
                 # a tuple variant mapped to a field-named one: every payload field names its counterpart field; where only From impls are requested
